@@ -97,6 +97,7 @@ type FuncSpec struct {
 	CrashAtomic bool
 	Trusted    bool
 	Inline     bool
+	Shadow     bool
 	Pure       bool
 	Holds      []string
 	Props      []string
@@ -210,7 +211,7 @@ func (db *SpecDB) funcTypeSpec(t types.Type) *FuncSpec {
 // ---- file parsing ----
 
 var clauseKw = map[string]bool{"crash-atomic": true, "ensures-agg": true, "ensures-each": true, "requires": true, "ensures": true, "assigns": true, "invariant": true, "decreases": true,
-	"owns": true, "trusted": true, "inline": true, "pure": true, "holds": true, "props": true, "params": true}
+	"owns": true, "trusted": true, "inline": true, "pure": true, "shadow": true, "holds": true, "props": true, "params": true}
 var declKw = map[string]bool{"package-props": true, "imageset-of": true, "fieldset-of": true, "typeinv": true, "func": true, "pred": true, "lemma": true, "global": true, "interface": true, "type": true, "expect-obligations": true, "table": true}
 
 type rawClause struct {
@@ -492,6 +493,12 @@ func (db *SpecDB) parseFile(file, src string) error {
 			case "trusted":
 				cur.Trusted = true
 			case "inline":
+				cur.Inline = true
+			case "shadow":
+				// shadow: the function is a state-independent function of scalar
+				// arguments; every inlined call also defines an uninterpreted shadow
+				// function at its arguments, which contracts may use under quantifiers
+				cur.Shadow = true
 				cur.Inline = true
 			case "pure":
 				cur.Pure = true
